@@ -242,6 +242,23 @@ def run(ctx: Ctx) -> None:
                 else:
                     rep.bad("C03.R4", f.qname, desc, f.loc(n), [f"{f.loc(n)}: the branch does more than logging"], stmt_key(n), what="a debug flag changes what the analysis computes")
 
+    # ---- R5: argument values are hashed from their own content only ----------------------------------------------
+    from .c05 import hasher, branches, dataclass_field_source
+    rep.rule("C03.R5", "the value hasher takes the components of a dataclass from dataclasses.fields(): no class-level state (ClassVar pseudo-fields, "
+                       "__dict__, dir()) enters an argument's hash")
+    _outer, hh = hasher(ctx)
+    n5 = 0
+    for names, br in branches(hh):
+        if "<dataclass>" in names:
+            n5 += 1
+            w5 = dataclass_field_source(hh, br)
+            desc = "dataclass arguments are hashed from their declared fields only"
+            if w5:
+                rep.bad("C03.R5", hh.qname, desc, hh.loc(br), w5, "dataclass-fields", what="class-level state of a dataclass enters the hash of its instances")
+            else:
+                rep.ok("C03.R5", hh.qname, desc, hh.loc(br))
+    rep.floor("C03.R5", n5, 1)
+
 
 def global_cache_rule(ctx: Ctx, rule: str) -> None:
     """the process-wide cache whose entries are returned as analysis results has no writer"""
